@@ -193,9 +193,27 @@ def R2_close(run):
                     if const_val(q) == 0 and arg_name(p):
                         fields.add(arg_name(p))
     want = {"liquidity", "fee_owed_a", "fee_owed_b", "amount_owed"}
-    run.check("R2", "empty-definition", want <= fields, "is_position_empty tests %s == 0, expected %s" % (sorted(fields), sorted(want)), loc=fn.loc(), detail="liquidity, fee_owed_a, fee_owed_b, reward amount_owed all == 0")
     loops = any((callee_path(t) or "").endswith("Range<usize>>::next") or "next" in (callee_path(t) or "") for _, t in fn.calls())
     bound = any(const_val(s) == 3 or (s[0] == "const" and s[2] and s[2].endswith("NUM_REWARDS")) for bi, t in fn.calls() for a in t["a"] for s in subterms(pv.operand(a, bi, len(fn.blocks[bi]["s"]))))
+    # the same conjunction written as `reward_infos.iter().all(|r| r.amount_owed == 0)`: every element of the whole array, the test in the closure
+    for bi, t in fn.calls():
+        if not any(n.endswith(("Iterator::all", "Iterator>::all")) for n in (t["f"].get("raw") or "", callee_path(t) or "")) or len(t["a"]) != 2:
+            continue
+        recv, clo = (pv.operand(a, bi, len(fn.blocks[bi]["s"])) for a in t["a"])
+        cl = [x for x in subterms(clo) if x[0] == "closure"]
+        if arg_name(recv) != "reward_infos" or len(cl) != 1:
+            continue
+        cf = facts.fn(cl[0][1])
+        if cf is None:
+            continue
+        run.touch(cf)
+        pc = prov_of(cf)
+        rets = [pc.local(0, b, len(bb["s"])) for b, bb in enumerate(cf.blocks) if bb["t"]["k"] == "ret"]
+        r0 = strip(rets[0]) if len(rets) == 1 else None
+        if r0 and r0[0] == "bin" and r0[1] == "Eq" and any(const_val(y) == 0 and arg_name(x) == "amount_owed" for x, y in ((r0[2], r0[3]), (r0[3], r0[2]))):
+            fields.add("amount_owed")
+            loops = bound = True
+    run.check("R2", "empty-definition", want <= fields, "is_position_empty tests %s == 0, expected %s" % (sorted(fields), sorted(want)), loc=fn.loc(), detail="liquidity, fee_owed_a, fee_owed_b, reward amount_owed all == 0")
     run.check("R2", "empty-all-rewards", loops and bound, "is_position_empty does not loop over all NUM_REWARDS rewards", loc=fn.loc(), detail="for i in 0..NUM_REWARDS")
     closes = [("instructions::close_position::handler", ("burn_and_close_user_position_token",), "position"),
               ("instructions::close_position_with_token_extensions::handler", ("burn_and_close_user_position_token_2022",), "position"),
